@@ -83,7 +83,7 @@ Record world := mkWorld {
   (* configuration and static tables *)
   max_len : Z; tkinds : list tkind; tlens : list (option Z);
   (* AudioEnv *)
-  a_uri : option track; a_state : ps; a_fresh : bool; a_pos : Z; queue : list notif;
+  a_uri : option track; a_state : ps; a_fresh : bool; a_pos : Z; a_atf_done : bool; queue : list notif;
   (* backend flakiness script: head = true makes the next change_track attempt fail *)
   script : list bool;
   (* shuffle oracle counter *)
@@ -99,7 +99,7 @@ Record world := mkWorld {
   <tl; next_tlid; version; consume; random; repeat; single; shuffled;
    pstate; current; pending; pending_position; last_position; previous_flag;
    start_at_position; start_paused; history; volume; mute;
-   max_len; tkinds; tlens; a_uri; a_state; a_fresh; a_pos; queue; script; seed; saved;
+   max_len; tkinds; tlens; a_uri; a_state; a_fresh; a_pos; a_atf_done; queue; script; seed; saved;
    events; acalls; attempts; bcalls; issued; protocol_violations>.
 
 Definition init_world (maxlen : Z) (kinds : list tkind) (lens : list (option Z))
@@ -111,7 +111,7 @@ Definition init_world (maxlen : Z) (kinds : list tkind) (lens : list (option Z))
      start_at_position := None; start_paused := false; history := [];
      volume := vol; mute := mut;
      max_len := maxlen; tkinds := kinds; tlens := lens;
-     a_uri := None; a_state := Stopped; a_fresh := false; a_pos := 0; queue := [];
+     a_uri := None; a_state := Stopped; a_fresh := false; a_pos := 0; a_atf_done := false; queue := [];
      script := scr; seed := 0; saved := None;
      events := []; acalls := []; attempts := []; bcalls := 0; issued := [];
      protocol_violations := 0 |}.
